@@ -1077,8 +1077,13 @@ fn extract_lifecycle(repo: &std::path::Path, out: &mut Out) {
             let term_break = term.ends_with("break;}");
             let mail_inline = mail.matches("payload.handle_message(&mutactor,actor_ref,reply_channel)").count() == 1 && !mail.contains("spawn(");
             let mail_stop_pat = mail.contains("Some(MailboxMessage::StopGracefully(_))|None=>");
-            let mail_on_stop_false = mail.matches("actor.on_stop(&actor_weak,false)").count() == 1 && mail.matches("on_stop(").count() == 1;
-            let mail_fail = mail.contains("returnActorResult::Failed{actor:Some(actor),error:e,phase:FailurePhase::OnStop,killed:false,};");
+            // the stop-marker / closed-mailbox arm first looks at the control channel once more (a kill() that arrived after
+            // this pass polled it wins), then runs on_stop with the flag
+            let mail_rechecks_kill = mail.contains("Some(MailboxMessage::StopGracefully(_))|None=>{ifterminate_receiver.try_recv().is_ok(){killed=true;}")
+                && mail.matches("try_recv(").count() == 1
+                && mail.matches("killed=").count() == 1;
+            let mail_on_stop_false = mail.matches("actor.on_stop(&actor_weak,killed)").count() == 1 && mail.matches("on_stop(").count() == 1;
+            let mail_fail = mail.contains("returnActorResult::Failed{actor:Some(actor),error:e,phase:FailurePhase::OnStop,killed,};");
             let mail_break = mail.contains("break;}");
             let run_true = run.contains("Ok(true)=>{}");
             let run_false = run.contains("Ok(false)=>{idle_enabled=false;}");
@@ -1094,8 +1099,8 @@ fn extract_lifecycle(repo: &std::path::Path, out: &mut Out) {
             let on_stop_total = whole.matches("on_stop(").count();
             Ok(format!(
                 "inductive Branch | term | mail | run\n  deriving DecidableEq, Repr\n\
-                 structure Lifecycle where\n  biased : Bool\n  order : List Branch\n  guards : List String\n  termKilledOnSignal : Bool\n  termNotKilledOnClosed : Bool\n  termOnStopWithFlag : Bool\n  termFailShape : Bool\n  termBreaks : Bool\n  mailHandlesInline : Bool\n  mailStopOrClosedArm : Bool\n  mailOnStopFalse : Bool\n  mailFailShape : Bool\n  mailBreaks : Bool\n  runTrueContinues : Bool\n  runFalseDisables : Bool\n  runErrOnStopFalse : Bool\n  runErrPhases : Bool\n  runErrFailShape : Bool\n  startFailShape : Bool\n  dropsOwnRefAfterStart : Bool\n  closesBothAfterLoop : Bool\n  completedShape : Bool\n  initFlags : Bool\n  onStopCallSites : Nat\n  deriving DecidableEq, Repr\n\
-                 def lifecycle : Lifecycle := {{ biased := {}, order := [{}], guards := [{}], termKilledOnSignal := {term_killed_some}, termNotKilledOnClosed := {term_killed_none}, termOnStopWithFlag := {term_on_stop_killed}, termFailShape := {term_fail}, termBreaks := {term_break}, mailHandlesInline := {mail_inline}, mailStopOrClosedArm := {mail_stop_pat}, mailOnStopFalse := {mail_on_stop_false}, mailFailShape := {mail_fail}, mailBreaks := {mail_break}, runTrueContinues := {run_true}, runFalseDisables := {run_false}, runErrOnStopFalse := {run_on_stop_false}, runErrPhases := {run_phases}, runErrFailShape := {run_fail}, startFailShape := {start_fail}, dropsOwnRefAfterStart := {drops_ref}, closesBothAfterLoop := {closes}, completedShape := {completed}, initFlags := {init_flags}, onStopCallSites := {on_stop_total} }}\n",
+                 structure Lifecycle where\n  biased : Bool\n  order : List Branch\n  guards : List String\n  termKilledOnSignal : Bool\n  termNotKilledOnClosed : Bool\n  termOnStopWithFlag : Bool\n  termFailShape : Bool\n  termBreaks : Bool\n  mailHandlesInline : Bool\n  mailStopOrClosedArm : Bool\n  mailRechecksKill : Bool\n  mailOnStopWithFlag : Bool\n  mailFailShape : Bool\n  mailBreaks : Bool\n  runTrueContinues : Bool\n  runFalseDisables : Bool\n  runErrOnStopFalse : Bool\n  runErrPhases : Bool\n  runErrFailShape : Bool\n  startFailShape : Bool\n  dropsOwnRefAfterStart : Bool\n  closesBothAfterLoop : Bool\n  completedShape : Bool\n  initFlags : Bool\n  onStopCallSites : Nat\n  deriving DecidableEq, Repr\n\
+                 def lifecycle : Lifecycle := {{ biased := {}, order := [{}], guards := [{}], termKilledOnSignal := {term_killed_some}, termNotKilledOnClosed := {term_killed_none}, termOnStopWithFlag := {term_on_stop_killed}, termFailShape := {term_fail}, termBreaks := {term_break}, mailHandlesInline := {mail_inline}, mailStopOrClosedArm := {mail_stop_pat}, mailRechecksKill := {mail_rechecks_kill}, mailOnStopWithFlag := {mail_on_stop_false}, mailFailShape := {mail_fail}, mailBreaks := {mail_break}, runTrueContinues := {run_true}, runFalseDisables := {run_false}, runErrOnStopFalse := {run_on_stop_false}, runErrPhases := {run_phases}, runErrFailShape := {run_fail}, startFailShape := {start_fail}, dropsOwnRefAfterStart := {drops_ref}, closesBothAfterLoop := {closes}, completedShape := {completed}, initFlags := {init_flags}, onStopCallSites := {on_stop_total} }}\n",
                 sel.biased,
                 order.join(", "),
                 guards.join(", ")
